@@ -89,3 +89,15 @@ Definition csched_seq (n : nat) : list clabel :=
 (* one connection = the number of onClose invocations its closers produced *)
 Definition active_after (fires : list nat) : Z :=
   Z.sub (Z.of_nat (length fires)) (Z.of_nat (fold_right plus 0 fires)).
+
+(* ---- byte counters of the tracking wrapper (conntrack.conn): Read adds the n it returns to rx,
+        Write and ReadFrom add the n they return to tx (atomic adds) ---- *)
+Inductive bop := BRead (n : N) | BWrite (n : N) | BReadFrom (n : N).
+Definition bstep (s : N * N) (o : bop) : N * N :=
+  match o with
+  | BRead n => (fst s + n, snd s)%N
+  | BWrite n | BReadFrom n => (fst s, snd s + n)%N
+  end.
+Definition brun (ops : list bop) : N * N := fold_left bstep ops (0, 0)%N.
+Definition rx_sum (ops : list bop) : N := fold_right (fun o a => match o with BRead n => (n + a)%N | _ => a end) 0%N ops.
+Definition tx_sum (ops : list bop) : N := fold_right (fun o a => match o with BRead _ => a | BWrite n | BReadFrom n => (n + a)%N end) 0%N ops.
